@@ -524,6 +524,10 @@ func (fr *Frame) callContract(ins *ssa.Call, fn *ssa.Function, fc *FuncContract,
 	for _, e := range fc.Ensures {
 		vc.assume(st.pc, ex.trClause(tc2, e))
 	}
+	for _, e := range fc.TrustedEnsures {
+		vc.assume(st.pc, ex.trClause(tc2, e))
+		ex.vc.note("trusted postcondition of %s assumed: %s", fn.Name(), e.Src)
+	}
 	return results
 }
 
